@@ -264,6 +264,8 @@ pub struct World<A: App> {
     pub net: Vec<Flight>,
     pub latency: Duration,
     pub link_mtu: usize,
+    /// per node (server, client): the connection uses one of quinn's own congestion controllers
+    pub builtin_ctl: [bool; 2],
     pub max_datagrams: usize,
     pub emitted: u64,
     pub seq: u64,
@@ -332,6 +334,7 @@ impl<A: App> World<A> {
             seq: 0,
             batches: 0,
             fates: BTreeMap::new(),
+            builtin_ctl: [true, true],
             drop_mask: 0,
             mask_base: 0,
             addr_latency: vec![],
@@ -1001,6 +1004,8 @@ pub enum Ctl {
     Bbr,
     /// Fixed window in bytes, harness controller
     Fixed(u64),
+    /// Cubic with this initial window (bytes)
+    CubicIw(u64),
 }
 
 #[derive(Debug, Clone, Copy, PartialEq, Eq)]
@@ -1070,6 +1075,11 @@ impl TCfg {
             }
             Ctl::Fixed(w) => {
                 t.congestion_controller_factory(Arc::new(crate::ctl::FixedFactory { window: w }));
+            }
+            Ctl::CubicIw(w) => {
+                let mut c = congestion::CubicConfig::default();
+                c.initial_window(w);
+                t.congestion_controller_factory(Arc::new(c));
             }
         }
         t.max_outgoing_bytes_per_second(self.pacing_cap);
@@ -1237,6 +1247,7 @@ impl<A: App> Pair<A> {
     ) -> Self {
         let mut w = World::new(base, make_server_app);
         w.latency = cfg.latency;
+        w.builtin_ctl = [!matches!(cfg.server.controller, Ctl::Fixed(_)), !matches!(cfg.client.controller, Ctl::Fixed(_))];
         w.max_datagrams = cfg.max_datagrams;
         let keylog = Arc::new(mtls::KeyLog::default());
         let sc = server_config(cfg, keylog.clone(), w.sim_time.clone());
